@@ -1,3 +1,4 @@
+import OVM.Refine.NextPrev
 import OVM.Gen.Handles
 import OVM.Base.Bits
 import OVM.Kernel.Delete
@@ -188,5 +189,57 @@ example :
   intro i hi
   have : i = 0 ∨ i = 1 ∨ i = 2 := by simp at hi; omega
   rcases this with h | h | h <;> subst h <;> decide
+
+
+/-! ### next / prev inside a halfface (TopologyKernel.cc:2131-2171) -/
+
+/-- position form: the successor of the `i`-th halfedge is the `(i+1) mod n`-th, the predecessor the
+    `(i-1) mod n`-th (in particular the wrap-around at position 0, for every valence) -/
+theorem next_prev_positions (k : Kernel) (hf i : Nat) (hn : (k.hfHes hf).Nodup) (hi : i < (k.hfHes hf).length) :
+    k.nextHe ((k.hfHes hf)[i]) hf = (k.hfHes hf)[(i + 1) % (k.hfHes hf).length]? ∧
+    k.prevHe ((k.hfHes hf)[i]) hf = (k.hfHes hf)[(i + (k.hfHes hf).length - 1) % (k.hfHes hf).length]? := by
+  have hpos : 0 < (k.hfHes hf).length := by omega
+  rw [nextHe_at k hf i hn hi, prevHe_at k hf i hn hi,
+    List.getElem?_eq_getElem (Nat.mod_lt _ hpos), List.getElem?_eq_getElem (Nat.mod_lt _ hpos)]
+  exact ⟨rfl, rfl⟩
+
+theorem idx_next_prev (n i : Nat) (hi : i < n) : ((i + 1) % n + n - 1) % n = i := by
+  by_cases h : i + 1 < n
+  · rw [Nat.mod_eq_of_lt h]
+    have : i + 1 + n - 1 = i + n := by omega
+    rw [this, Nat.add_mod_right, Nat.mod_eq_of_lt hi]
+  · have e : i + 1 = n := by omega
+    rw [e, Nat.mod_self, Nat.zero_add, Nat.mod_eq_of_lt (by omega)]
+    omega
+
+theorem idx_prev_next (n i : Nat) (hi : i < n) : ((i + n - 1) % n + 1) % n = i := by
+  by_cases h : i = 0
+  · subst h
+    rw [Nat.zero_add, Nat.mod_eq_of_lt (by omega : n - 1 < n)]
+    have : n - 1 + 1 = n := by omega
+    rw [this, Nat.mod_self]
+  · have e : i + n - 1 = (i - 1) + n := by omega
+    rw [e, Nat.add_mod_right, Nat.mod_eq_of_lt (by omega : i - 1 < n)]
+    have : i - 1 + 1 = i := by omega
+    rw [this, Nat.mod_eq_of_lt hi]
+
+/-- stepping forward then backward (and backward then forward) inside a halfface returns to the start:
+    for every halfface without a repeated halfedge and every halfedge of it -/
+theorem next_prev_inverse (k : Kernel) (hf he : Nat) (hn : (k.hfHes hf).Nodup) (hm : he ∈ k.hfHes hf) :
+    ∃ n p, k.nextHe he hf = some n ∧ k.prevHe he hf = some p ∧ n ∈ k.hfHes hf ∧ p ∈ k.hfHes hf ∧
+      k.prevHe n hf = some he ∧ k.nextHe p hf = some he := by
+  obtain ⟨i, hi, rfl⟩ := List.getElem_of_mem hm
+  have hpos : 0 < (k.hfHes hf).length := by omega
+  have hn1 : (i + 1) % (k.hfHes hf).length < (k.hfHes hf).length := Nat.mod_lt _ hpos
+  have hp1 : (i + (k.hfHes hf).length - 1) % (k.hfHes hf).length < (k.hfHes hf).length := Nat.mod_lt _ hpos
+  refine ⟨_, _, nextHe_at k hf i hn hi, prevHe_at k hf i hn hi, List.getElem_mem _, List.getElem_mem _, ?_, ?_⟩
+  · rw [(next_prev_positions k hf _ hn hn1).2, idx_next_prev _ _ hi, List.getElem?_eq_getElem hi]
+  · rw [(next_prev_positions k hf _ hn hp1).1, idx_prev_next _ _ hi, List.getElem?_eq_getElem hi]
+
+example :
+    let k : Kernel := { nV := 3, edges := [(0, 1), (1, 2), (2, 0)], faces := [[0, 2, 4]] }
+    (k.hfHes 0).Nodup ∧ k.prevHe 0 0 = some 4 ∧ k.nextHe 4 0 = some 0 ∧ k.prevHe 5 1 = some 1 ∧ k.nextHe 1 1 = some 5 := by decide
+
+
 
 end OVM.Props.C08
